@@ -2,6 +2,7 @@ mod common;
 mod p_batched;
 mod p_bpetrain;
 mod p_edit;
+mod p_editword;
 mod p_multigen;
 mod p_pipe;
 mod p_tok;
@@ -24,6 +25,7 @@ fn component(name: &str) -> (ExecFn, GenFn) {
     match name {
         "edit" => (p_edit::exec, p_edit::gen),
         "pipe" => (p_pipe::exec, p_pipe::gen),
+        "editword" => (p_editword::exec, p_editword::gen),
         "windows" => (p_windows::exec, p_windows::gen),
         "ws" => (p_ws::exec, p_ws::gen),
         "bpetrain" => (p_bpetrain::exec, p_bpetrain::gen),
